@@ -68,7 +68,21 @@ impl Monitor for C15 {
     fn check(&self, case: &J, obs: &mut Obs) -> Verdict {
         let base = match Base::from_case(case) { Ok(b) => b, Err(e) => return Verdict::Inconclusive(e) };
         let p = match base.prepare("o") { Ok(p) => p, Err(e) => return Verdict::Inconclusive(format!("stmt: {}", e.show().chars().take(40).collect::<String>())) };
-        let whole = match base.batch(&p, &base.lines) { Ok(w) => w, Err(eng::EngErr::Panic(pn)) => return Verdict::Violated(vec![Violation::new(format!("order|panic:{}", pn.class()), pn.describe())]), Err(_) => return Verdict::Inconclusive("lower-layer-error".into()) };
+        let whole = match base.batch(&p, &base.lines) { Ok(w) => w, Err(eng::EngErr::Panic(pn)) => return Verdict::Violated(vec![Violation::new(format!("order|panic:{}", pn.class()), pn.describe())]), Err(_) => {
+            // the statement fails on the input as given (some row has no value): then it fails for every order of the lines
+            if case["kind"].as_str().unwrap_or("permute") == "permute" {
+                let mut rng = Rng::new(case["perm_seed"].as_u64().unwrap_or(1));
+                let mut orders: Vec<Vec<String>> = Vec::new();
+                let mut rev = base.lines.clone(); rev.reverse(); orders.push(rev);
+                for _ in 0..6 { let mut l = base.lines.clone(); rng.shuffle(&mut l); orders.push(l); }
+                for l in orders {
+                    obs.evals += 1;
+                    if let Ok(r) = base.batch(&p, &l) { obs.nontrivial(); return Verdict::Violated(vec![Violation::new("order|permute|error-in-one-order", format!("{:?}: fails in the original order of the lines, another order gives {}", base.sql, show_rows(&r, 3)))]); }
+                }
+                obs.hit("fails-in-every-order");
+            }
+            return Verdict::Inconclusive("lower-layer-error".into())
+        } };
         let kind = case["kind"].as_str().unwrap_or("permute");
         obs.hit(&format!("kind:{}", kind));
         let interesting = whole.rows.len() >= 2 && base.lines.len() >= whole.rows.len() + 2;
